@@ -10,6 +10,8 @@ Init == i \in 1..Len(Rows)
 Next == UNCHANGED i
 ObsOfRow(r) == [fv |-> r.impl.fv,
                 fp |-> [k \in DOMAIN r.impl.fp |-> [f \in DOMAIN r.impl.fp[k] |-> Rng(r.impl.fp[k][f])]],
+                nodup |-> \A k \in DOMAIN r.impl.fp : \A f \in DOMAIN r.impl.fp[k] :
+                              Len(r.impl.fp[k][f]) = Cardinality(Rng(r.impl.fp[k][f])),
                 check |-> r.impl.check]
 Bad == SelectSeq([k \in 1..Len(Rows) |->
                     Let(Rule(Rows[k].c.P, Rows[k].c.T), LAMBDA R :
